@@ -8,6 +8,7 @@
  "notes":"contract of remove_call_out_by_handle over the due-time view: the removed entry is gone, the time reported is its due time minus now, every other entry keeps its due time"}
 @*/
 #include "c10_env.h"
+void clear_error_state(void) { }   /* call_out() clears the limit marks after a failed callback (C05) */
 object_t *command_giver; time_t current_time;
 
 void h_remove_by_handle(void) {
